@@ -48,7 +48,7 @@ try:
         results = []
         for i, dm in enumerate(neutral_demos):
             local = os.path.join(wt, '_demo%d.py' % i)
-            open(local, 'w').write(re.sub(r'/tmp/wt2?_C\d+', wt, open(dm).read()))
+            open(local, 'w').write(re.sub(r'/tmp/wt\d*_C\d+', wt, open(dm).read()))
             r = sh('cd %s && timeout 300 /venv/bin/python _demo%d.py' % (wt, i), env=env)
             results.append({'demo': dm, 'exit': r.returncode})
         t0 = time.time()
@@ -74,7 +74,7 @@ try:
     demo_txt = open(demo).read()
     # demos were written against /tmp/wt_Cxx: point them at the confirmation worktree
     demo_local = os.path.join(wt, '_demo.py')
-    open(demo_local, 'w').write(re.sub(r'/tmp/wt2?_C\d+', wt, demo_txt))
+    open(demo_local, 'w').write(re.sub(r'/tmp/wt\d*_C\d+', wt, demo_txt))
     sh('git -C %s apply %s' % (wt, patch))
     r1 = sh('cd %s && timeout 300 /venv/bin/python _demo.py' % wt, env=env)
     meta['demo_with_change'] = {'exit': r1.returncode, 'tail': (r1.stdout + r1.stderr)[-600:]}
